@@ -119,30 +119,86 @@ func deepHash(ptr any) uint64 {
 	switch v := ptr.(type) {
 	case *[]int32:
 		mix(uint64(len(*v)))
-		for _, x := range *v {
+		for _, x := range (*v)[:cap(*v)] {
 			mix(uint64(uint32(x)))
 		}
 		return h
 	case *[]uint32:
 		mix(uint64(len(*v)))
-		for _, x := range *v {
+		for _, x := range (*v)[:cap(*v)] {
 			mix(uint64(x))
 		}
 		return h
-	case *[][]uint32:
-		mix(uint64(len(*v)))
-		for _, row := range *v {
-			mix(uint64(len(row)))
-			for _, x := range row {
-				mix(uint64(x))
-			}
+	}
+	var walk func(v reflect.Value, depth int)
+	walk = func(v reflect.Value, depth int) {
+		if depth > 8 {
+			return
 		}
-		return h
+		switch v.Kind() {
+		case reflect.Bool:
+			if v.Bool() {
+				mix(1)
+			} else {
+				mix(2)
+			}
+		case reflect.Int, reflect.Int8, reflect.Int16, reflect.Int32, reflect.Int64:
+			mix(uint64(v.Int()))
+		case reflect.Uint, reflect.Uint8, reflect.Uint16, reflect.Uint32, reflect.Uint64, reflect.Uintptr:
+			mix(v.Uint())
+		case reflect.Float32, reflect.Float64:
+			mix(uint64(int64(v.Float() * 1e6)))
+		case reflect.String:
+			s := v.String()
+			mix(uint64(len(s)))
+			for i := 0; i < len(s); i++ {
+				mix(uint64(s[i]))
+			}
+		case reflect.Slice:
+			// including the hidden capacity beyond len: a shared backing array
+			// is package-level state too
+			mix(uint64(v.Len()))
+			if v.IsNil() {
+				mix(7)
+				return
+			}
+			full := v.Slice3(0, v.Cap(), v.Cap())
+			for i := 0; i < full.Len(); i++ {
+				walk(full.Index(i), depth+1)
+			}
+		case reflect.Array:
+			for i := 0; i < v.Len(); i++ {
+				walk(v.Index(i), depth+1)
+			}
+		case reflect.Struct:
+			for i := 0; i < v.NumField(); i++ {
+				walk(v.Field(i), depth+1)
+			}
+		case reflect.Ptr, reflect.Interface:
+			if v.IsNil() {
+				mix(9)
+				return
+			}
+			walk(v.Elem(), depth+1)
+		case reflect.Map:
+			mix(uint64(v.Len()))
+			var sum uint64
+			it := v.MapRange()
+			for it.Next() {
+				// order-independent: sum of per-entry hashes
+				save := h
+				h = 1469598103934665603
+				walk(it.Key(), depth+1)
+				walk(it.Value(), depth+1)
+				sum += h
+				h = save
+			}
+			mix(sum)
+		default:
+			mix(uint64(v.Kind()))
+		}
 	}
-	s := fmt.Sprintf("%#v", reflect.ValueOf(ptr).Elem().Interface())
-	for i := 0; i < len(s); i++ {
-		mix(uint64(s[i]))
-	}
+	walk(reflect.ValueOf(ptr).Elem(), 0)
 	return h
 }
 
